@@ -1061,11 +1061,58 @@ func c15Tasks(tier string) []mc.Task {
 	for _, b := range c15Blocks(tier) {
 		ts = b.tasks(ts, target)
 	}
+	// long alignments (4 x 2600: longer than any block size a parallel version would plausibly use): the call
+	// under the controlled scheduler (one execution unless the operation spawns goroutines; then every
+	// interleaving within one preemption must give the result of the default one, without a data race)
+	ts = append(ts, mc.Task{Name: "concurrent#long", Run: func(c *mc.Ctx) {
+		seqs := make([]string, 4)
+		for i := range seqs {
+			b := make([]byte, 2600)
+			for j := range b {
+				b[j] = "AACCA-CA"[(j*(i+1)+j/5+i*(j/1000))%8]
+			}
+			seqs[i] = string(b)
+		}
+		for _, cs := range []c15Case{
+			{Op: "MaskOccurences", Alpha: "nt", Seqs: seqs, Repl: "MAJ", Max: 1},
+			{Op: "MaskOccurences", Alpha: "nt", Seqs: seqs, Ref: "a", Repl: "", Max: 2},
+			{Op: "MaskUnique", Alpha: "nt", Seqs: seqs, Repl: "MAJ"},
+			{Op: "Mask", Alpha: "nt", Seqs: seqs, Start: 5, Len: 2500, Repl: "MAJ"},
+			{Op: "Mask", Alpha: "nt", Seqs: seqs, Start: 0, Len: 2600, Repl: "", NoGap: true},
+		} {
+			cs.Op = "sched-" + cs.Op
+			c15Replay(c, cs)
+		}
+	}})
 	return ts
+}
+
+// c15Sched runs one call under the controlled scheduler (see mc.SchedProbe).
+func c15Sched(c *mc.Ctx, cs c15Case) {
+	op := strings.TrimPrefix(cs.Op, "sched-")
+	mc.SchedProbe(c, "C15/"+op, fmt.Sprintf("%s on a %dx%d alignment", op, len(cs.Seqs), len(cs.Seqs[0])), 1, cs, func() any {
+		al, err := mkAlign(c15Alphabet(cs.Alpha), namedRows(cs.Seqs...))
+		if err != nil {
+			return "build:" + err.Error()
+		}
+		switch op {
+		case "Mask":
+			err = al.Mask(cs.Ref, cs.Start, cs.Len, cs.Repl, cs.NoGap, cs.NoRef)
+		case "MaskOccurences":
+			err = al.MaskOccurences(cs.Ref, cs.Max, cs.Repl)
+		case "MaskUnique":
+			err = al.MaskUnique(cs.Ref, cs.Repl)
+		}
+		return fmt.Sprint(err, readRows(al))
+	}, func(a, b any) bool { return a == b })
 }
 
 // c15Replay runs one written-out case on a fresh alignment.
 func c15Replay(c *mc.Ctx, cs c15Case) {
+	if strings.HasPrefix(cs.Op, "sched-") {
+		c15Sched(c, cs)
+		return
+	}
 	k := &c15Checker{c: c}
 	defer k.flush()
 	if !k.load(cs.Alpha, cs.Seqs) {
@@ -1098,7 +1145,7 @@ func init() {
 	mc.Register(&mc.Prop{
 		ID:    "C15",
 		Level: "exploration",
-		Rule: "bounded-exhaustive enumeration of calls on real alignments (alphabet fixed to nucleotide, AMBIG = N, and to amino acid, AMBIG = X; rows named a, b, c ...). " +
+		Rule: "(also: five calls on a 4 x 2600 alignment under the controlled scheduler, preemption bound 1 — one execution unless the operation spawns goroutines;) bounded-exhaustive enumeration of calls on real alignments (alphabet fixed to nucleotide, AMBIG = N, and to amino acid, AMBIG = X; rows named a, b, c ...). " +
 			"Inputs (n rows x L columns, all alignments of the shape over the symbol set): 1x1, 1x2, 1x3, 2x1, 2x2, 3x1 and (Mask only) 1x4 over {A,C,-,N,.} (nt) / {A,C,-,X,.} (aa); " +
 			"2x3, 3x2, 4x1 and (MaskOccurences/MaskUnique only) 3x3, 4x2, 5x1 over {A,C,-,N} / {A,C,-,X}; Mask on 3x3 and 2x4 over {A,C,-} in the quick tier and over the four symbols in the thorough tier; " +
 			"thorough adds Mask on 4x2 and MaskOccurences/MaskUnique on 5x2 over the four symbols; plus the alignment without rows and 1, 2, 3 rows without columns. " +
